@@ -143,6 +143,8 @@ func checkSerialisationDeterminism(p *core.Program, r *core.Report) {
 	nPool := checkPooledObjectsReset(p, r, reach)
 	r.Analysed["pooled_objects_in_serialisation"] = nPool
 	r.Analysed["error_returning_functions_checked"] = checkErrorsNotSwallowedIn(p, r, bp7)
+	// "every byte string the parser accepts re-serialises ... with the payload block last"
+	checkPayloadLastGuard(p, r)
 	sort.Strings(names)
 	r.Analysed["serialisation_call_closure"] = names
 	r.OK("determinism/closure", "serialising a bundle is a deterministic function of the bundle: no map iteration, clock, randomness or concurrency is reachable from Bundle.MarshalCbor (except the two exempt blocks)", p.Pos(root.Pos()), fmt.Sprintf("%d functions reachable, %d exempt map ranges", len(reach), nExempt))
